@@ -173,6 +173,22 @@ class ChannelList(gpp.UGenSequence, aob.AbstractSequence, list):
     def moddif(self, that=0.0, mod=1.0):
         return self._multichannel_perform('moddif', that, mod)
 
+    def degrad(self):
+        return self._multichannel_perform('degrad')
+
+    def raddeg(self):
+        return self._multichannel_perform('raddeg')
+
+    def sanitize(self):
+        return self._multichannel_perform('sanitize')
+
+    def snap(self, resolution=1.0, margin=0.05, strengh=1.0):
+        return self._multichannel_perform('snap', resolution, margin, strengh)
+
+    def softround(self, resolution=1.0, margin=0.05, strengh=1.0):
+        return self._multichannel_perform(
+            'softround', resolution, margin, strengh)
+
     # in Array.sc
 
     # channels, no (is len, UGen don't really know about channels), TODO: ensure consistency.
